@@ -35,7 +35,12 @@ def main():
             rc_demo, out = sh(f'cd /repo && PYTHONPATH=/repo/src /venv/bin/python {d}/demo.py', timeout=900)
             meta['demo_with_change'] = {'exit': rc_demo, 'tail': out[-300:]}
             t0 = time.time()
+            # the evidence file is rewritten by every run of a check; the one committed must come from the UNCHANGED tree
+            evp = os.path.join(ROOT, 'evidence', f'{prop}.json')
+            ev_saved = open(evp, 'rb').read() if os.path.exists(evp) else None
             rc_chk, out = sh(f'cd {ROOT} && ./check {prop} --tier quick', timeout=3000)
+            if ev_saved is not None:
+                open(evp, 'wb').write(ev_saved)
             lines = out.splitlines()
             meta['check_with_change'] = {'cmd': f'./check {prop} --tier quick', 'exit': rc_chk, 'secs': round(time.time() - t0, 1),
                                          'violation_lines': [l for l in lines if l.startswith('VIOLATION')][:6],
